@@ -102,6 +102,7 @@ class Evaluator:
         self.consts = consts
         self.calls = calls
         self.atoms = atoms
+        self._depth = 0
 
     def ev(self, e: ast.AST) -> T.Any:
         k = key(e)
@@ -373,9 +374,90 @@ class Evaluator:
                     return recv.isdisjoint(a)
                 except Exception:
                     return UNKNOWN
+        if INLINER is not None and self._depth < 2:
+            inl = INLINER(e)
+            if inl is not None:
+                self._depth += 1
+                try:
+                    return self.ev(inl)
+                finally:
+                    self._depth -= 1
         if self.calls is not None:
             return self.calls(e, self)
         return UNKNOWN
+
+
+# ---------------------------------------------------------------------------
+# loop <-> any()/all() and expression-bodied helpers (structural rewriting, nothing is executed)
+
+def _any_of(target: ast.AST, it: ast.AST, cond: ast.AST, negate: bool) -> ast.AST:
+    gen = ast.GeneratorExp(elt=cond, generators=[ast.comprehension(target=target, iter=it, ifs=[], is_async=0)])
+    call: ast.AST = ast.Call(func=ast.Name(id='any', ctx=ast.Load()), args=[gen], keywords=[])
+    if negate:
+        call = ast.UnaryOp(op=ast.Not(), operand=call)
+    return ast.fix_missing_locations(copy.deepcopy(call))
+
+
+def flag_loop(loop: ast.AST) -> T.Optional[T.Tuple[str, bool, ast.AST]]:
+    """`for t in I: if COND: flag = <b> [break]`  ->  (flag, b, any(COND for t in I))."""
+    if not isinstance(loop, ast.For) or loop.orelse or len(loop.body) != 1 or not isinstance(loop.body[0], ast.If):
+        return None
+    i = loop.body[0]
+    if i.orelse or not (1 <= len(i.body) <= 2):
+        return None
+    a = i.body[0]
+    if len(i.body) == 2 and not isinstance(i.body[1], ast.Break):
+        return None
+    if not (isinstance(a, ast.Assign) and len(a.targets) == 1 and isinstance(a.targets[0], ast.Name) and isinstance(a.value, ast.Constant)
+            and isinstance(a.value.value, bool)):
+        return None
+    return a.targets[0].id, a.value.value, _any_of(loop.target, loop.iter, i.test, False)
+
+
+def helper_expression(fn: ast.AST) -> T.Optional[ast.AST]:
+    """The expression a helper computes, when its body is `return E`, or the search loop
+    `for t in I: if COND: return <b>` + `return <not b>` (= any / not any), or flag = c; flag loop; return flag."""
+    body = [st for st in getattr(fn, 'body', []) if not (isinstance(st, ast.Expr) and isinstance(st.value, ast.Constant))]
+    if len(body) == 1 and isinstance(body[0], ast.Return) and body[0].value is not None:
+        return body[0].value
+    if len(body) == 2 and isinstance(body[0], ast.For) and isinstance(body[1], ast.Return) and isinstance(body[1].value, ast.Constant) \
+            and isinstance(body[1].value.value, bool):
+        lp = body[0]
+        if not lp.orelse and len(lp.body) == 1 and isinstance(lp.body[0], ast.If) and not lp.body[0].orelse and len(lp.body[0].body) == 1:
+            r = lp.body[0].body[0]
+            if isinstance(r, ast.Return) and isinstance(r.value, ast.Constant) and isinstance(r.value.value, bool) and r.value.value != body[1].value.value:
+                return _any_of(lp.target, lp.iter, lp.body[0].test, negate=not r.value.value)
+    if len(body) == 3 and isinstance(body[0], ast.Assign) and isinstance(body[2], ast.Return) and isinstance(body[2].value, ast.Name):
+        fl = flag_loop(body[1])
+        a = body[0]
+        if fl and len(a.targets) == 1 and isinstance(a.targets[0], ast.Name) and a.targets[0].id == fl[0] == body[2].value.id \
+                and isinstance(a.value, ast.Constant) and a.value.value is (not fl[1]):
+            return fl[2] if fl[1] else ast.UnaryOp(op=ast.Not(), operand=fl[2])
+    return None
+
+
+# set by the rule pack for the class being analysed: Call -> inlined expression (parameters replaced by the arguments) or None
+INLINER: T.Optional[T.Callable[[ast.Call], T.Optional[ast.AST]]] = None
+
+
+def inline_call(fn: ast.AST, call: ast.Call, skip_first: bool) -> T.Optional[ast.AST]:
+    e = helper_expression(fn)
+    if e is None:
+        return None
+    a = fn.args  # type: ignore[attr-defined]
+    params = [x.arg for x in a.posonlyargs + a.args]
+    if skip_first and params:
+        params = params[1:]
+    if a.vararg or a.kwarg or any(isinstance(x, ast.Starred) for x in call.args) or len(call.args) > len(params):
+        return None
+    m: T.Dict[str, ast.AST] = dict(zip(params, call.args))
+    for k in call.keywords:
+        if k.arg is None or k.arg in m:
+            return None
+        m[k.arg] = k.value
+    if set(params) - set(m):
+        return None
+    return subst(e, m)
 
 
 # ---------------------------------------------------------------------------
@@ -569,14 +651,19 @@ def _walk(p: Path, prefix: T.List[Event], hyp: Hyp, observer: T.Optional[Observe
     def sub(e: ast.AST) -> ast.AST:
         return subst(e, binds)
 
+    opaque: T.Set[str] = set()          # locals whose value the walker lost (loop-carried, unpacked, result of an impure call)
+    loop_entry: T.Dict[int, T.Any] = {}
+
     def unbind(targets: T.Iterable[ast.AST]) -> None:
         for t in targets:
             for n in ast.walk(t):
                 if isinstance(n, ast.Name):
                     binds.pop(n.id, None)
+                    opaque.add(n.id)
                     # bindings that read the rebound name are stale too
                     for k in [k for k, v in binds.items() if any(isinstance(x, ast.Name) and x.id == n.id for x in ast.walk(v))]:
                         binds.pop(k)
+                        opaque.add(k)
 
     def kill(target_key: str) -> None:
         for d in (stable, volatile):
@@ -595,6 +682,15 @@ def _walk(p: Path, prefix: T.List[Event], hyp: Hyp, observer: T.Optional[Observe
             full.update(volatile)
             v = truth(Evaluator(full, consts, calls, hyp.atoms).ev(e))
             if v is None:
+                # a test on a local whose value was lost, or through a helper that cannot be seen into
+                lost = sorted(n.id for n in ast.walk(e) if isinstance(n, ast.Name) and n.id in opaque and n.id not in binds)
+                if lost:
+                    notes.setdefault('unknown', []).append(f'{short(e, 60)} (local `{lost[0]}` is computed by code the rule does not follow)')
+                for c, chains in _calls_touching(e, {}):
+                    if INLINER is not None and INLINER(c) is not None:
+                        continue
+                    if any(related(ch, kc) for ch in chains for k in full for kc in _chains_of_key(k)):
+                        notes.setdefault('unknown', []).append(f'{short(e, 60)} (helper `{short(c.func, 30)}` is not understood)')
                 # a test that mentions a hypothesised location but is not understood
                 mentioned = _chains_of_key(norm(e))
                 for k, kv in full.items():
@@ -617,6 +713,9 @@ def _walk(p: Path, prefix: T.List[Event], hyp: Hyp, observer: T.Optional[Observe
         if node is None:
             continue
         if ev.kind == 'iter':
+            fl = flag_loop(node)
+            if id(node) not in loop_entry:
+                loop_entry[id(node)] = binds.get(fl[0]) if fl else None
             unbind([node.target])  # type: ignore[attr-defined]
             # names assigned in the loop body are unknown afterwards; calls inside may touch owners
             for st in getattr(node, 'body', []):
@@ -627,6 +726,13 @@ def _walk(p: Path, prefix: T.List[Event], hyp: Hyp, observer: T.Optional[Observe
                     for ch in chains:
                         if any(related(ch, kc) for k in volatile for kc in _chains_of_key(k)):
                             contradicted_vol = False
+            if ev.val == 'done':
+                init = loop_entry.pop(id(node), None)
+                if fl and isinstance(init, ast.Constant) and init.value is (not fl[1]):
+                    # flag = c; for t in I: if COND: flag = not c  ==  flag = any(COND for t in I) (or its negation)
+                    e2 = sub(fl[2])
+                    binds[fl[0]] = e2 if fl[1] else ast.UnaryOp(op=ast.Not(), operand=e2)
+                    opaque.discard(fl[0])
             continue
         if ev.kind == 'with':
             for i in node.items:  # type: ignore[attr-defined]
@@ -653,6 +759,7 @@ def _walk(p: Path, prefix: T.List[Event], hyp: Hyp, observer: T.Optional[Observe
                     unbind([t])
                     if _bindable(val):
                         binds[t.id] = v2
+                        opaque.discard(t.id)
                 elif isinstance(t, (ast.Tuple, ast.List)):
                     unbind([t])
                 else:
